@@ -3011,6 +3011,8 @@ class Tree:
         """
         if self.num_roots != 1 or other.num_roots != 1:
             raise ValueError("Trees must have a single root")
+        if set(self.samples()) != set(other.samples()):
+            raise ValueError("Trees must have the same sample nodes")
 
         s1 = set(self._get_sample_sets().values())
         s2 = set(other._get_sample_sets().values())
